@@ -42,6 +42,10 @@ NUG = {0: 0.0, 1: 0.5}
 _SHARED = {SEED_SMALL: SEED_SMALL, SEED_BIG: SEED_BIG, SEED_NEAR: SEED_NEAR}
 
 
+MODE_SCALE = [1]     # real mode number = spec token * MODE_SCALE[0] (32 in the "many modes" variant, where the
+                     # MCMC sampler of the radial spectral density runs chains of different length for 128 / 192 modes)
+
+
 def seed_obj(v, fresh):
     if v == KEEP:
         return np.nan
@@ -112,7 +116,7 @@ class Real:
         if kind == "Fourier":
             kw.update(mode_no=[st["modeNo"]] * dim, period=period_of(st["period"], dim))
         else:
-            kw.update(mode_no=st["modeNo"])
+            kw.update(mode_no=st["modeNo"] * MODE_SCALE[0])
         gen = {"RandMeth": "RandMeth", "Fourier": "Fourier", "IncomprRandMeth": "IncomprRandMeth"}[kind]
         self.srf = gs.SRF(self.model(st["pm"]), generator=gen, **kw)
 
@@ -140,7 +144,7 @@ class Real:
         elif n == "AssignModel":
             srf.model = self.model(op["m"])
         elif n == "GenModeNo":
-            srf.generator.mode_no = [op["v"]] * self.dim if self.kind == "Fourier" else op["v"]
+            srf.generator.mode_no = [op["v"]] * self.dim if self.kind == "Fourier" else op["v"] * MODE_SCALE[0]
         elif n == "GenPeriod":
             srf.generator.period = period_of(op["v"], self.dim)
         elif n == "GenSeed":
@@ -159,7 +163,7 @@ _REF = {}
 
 def reference(kind, cls, dim, want, X, tag="grid"):
     """Field of a freshly constructed SRF with the settings `want` (nugget-free) at the positions X."""
-    key = (kind, cls, dim, tlaval.freeze(want), tag)
+    key = (kind, cls, dim, tlaval.freeze(want), tag, MODE_SCALE[0])
     if key not in _REF:
         st = {"seed": want["seed"], "modeNo": want["modeNo"], "period": want["period"],
               "pm": {"var": want["var"], "len": want["len"], "anis": want["anis"], "ang": want["ang"], "nug": 0}}
@@ -326,6 +330,8 @@ class _Collect:
 
 def _work(job):
     tag, kind, speckind, cls, dim, scdir, cap, rseed, tier = job
+    many_modes = tag.endswith("/manymodes")
+    MODE_SCALE[0] = 32 if many_modes else 1
     warnings.simplefilter("ignore")
     rng = random.Random(rseed)
     col = _Collect()
@@ -363,10 +369,12 @@ def _work(job):
     for beh in tlc.read_sim_traces(os.path.join(scdir, "sim"), "S_%s_%d" % (speckind, sdim)):
         behs.append(("simulate", [s for _a, s in beh]))
     out = {"traces": 0, "calls": 0, "nontrivial": set(), "samples": [], "tag": tag}
+    if many_modes:      # expensive variant: only the systematic behaviours and a few random histories
+        behs = [b for b in behs if b[0] == "one operation, then call"] + [b for b in behs if b[0] == "simulate"][:6]
     for origin, sts in behs:
         if not any(s["op"]["name"] == "Call" for s in sts[1:]):
             continue
-        c = replay(col, kind, cls, dim, sts, origin, locality=(origin != "one operation, then call"))
+        c = replay(col, kind, cls, dim, sts, origin, locality=(origin != "one operation, then call" and not many_modes))
         out["traces"] += 1
         out["calls"] += c
         out["nontrivial"].add(hash((tag, tlaval.freeze([s["op"] for s in sts]))))
@@ -585,6 +593,9 @@ def run(pid, tier, seed, replay=None):
                         continue
                     work.append(("%s/%s/%d" % (kind, cls, dim), kind, sk, cls, dim, sc.dir,
                                  (1000 if thorough else (300 if pid == "C17" else 120)), rng.randrange(2**31), tier))
+        if pid == "C11":
+            for kind in ("RandMeth", "IncomprRandMeth"):
+                work.append(("%s/Gaussian/3/manymodes" % kind, kind, "RandMeth", "Gaussian", 3, sc.dir, 40, rng.randrange(2**31), tier))
         import multiprocessing as mp
 
         with mp.get_context("fork").Pool(14) as pool:
